@@ -19,6 +19,7 @@ type miscRun struct {
 	primM   map[string]Obj
 	prim    krt.StaticCollection[Obj]
 	sec     krt.StaticCollection[Obj]
+	third   krt.StaticCollection[Obj] // read through PartialFetchComparable only
 	secVal  krt.Index[string, Obj]
 	cfg     krt.StaticSingleton[Obj]
 	cfgVal  *Obj
@@ -26,12 +27,19 @@ type miscRun struct {
 	subs    map[string]*subscriber
 	regs    map[string]krt.HandlerRegistration
 	frozen  map[string]int
+	xsubs   map[string]*subscriber
+	// DiscardResult bookkeeping (mirrors MiscDriver.lean): quiet = nothing changed since the last barrier;
+	// retained = the results the discarding inputs must keep (nil: unknown)
+	quiet    bool
+	retained map[string]bool
+	retKnown bool
 }
 
 func newMiscRun() runner {
 	r := &miscRun{stop: make(chan struct{}), primM: map[string]Obj{}, subs: map[string]*subscriber{},
-		regs: map[string]krt.HandlerRegistration{}, frozen: map[string]int{}}
+		regs: map[string]krt.HandlerRegistration{}, frozen: map[string]int{}, xsubs: map[string]*subscriber{}}
 	r.sec = krt.NewStaticCollection[Obj](nil, nil, krt.WithStop(r.stop), krt.WithName("sec"))
+	r.third = krt.NewStaticCollection[Obj](nil, nil, krt.WithStop(r.stop), krt.WithName("third"))
 	r.cfg = krt.NewStatic[Obj](nil, true, krt.WithStop(r.stop), krt.WithName("cfg"))
 	return r
 }
@@ -53,7 +61,7 @@ func (r *miscRun) start() {
 	r.der = krt.NewCollection[Obj, Out](r.prim, func(ctx krt.HandlerContext, i Obj) *Out {
 		c := krt.FetchOne(ctx, cfgCol)
 		a := r.secVal.Fetch(ctx, i.Val)
-		p := krt.PartialFetchComparable(ctx, r.sec, func(o Obj) string { return o.NS + "." + o.Labels["l1"] }, krt.FilterKey(i.Ref))
+		p := krt.PartialFetchComparable(ctx, r.third, func(o Obj) string { return o.NS + "." + o.Labels["l1"] }, krt.FilterKey(i.Ref))
 		cs, ps := "-", "-"
 		if c != nil {
 			cs = c.ResourceName() + ":" + c.Val
@@ -72,8 +80,20 @@ func (r *miscRun) discarding() bool { return r.cfgVal != nil && r.cfgVal.Val == 
 
 func (r *miscRun) masked(k string) bool { return r.discarding() && strings.HasSuffix(k, "/c") }
 
+// unknown: a discarding input whose kept result is not known (created while discarding, or discarding began
+// with changes in flight); known kept results are printed and compared
+func (r *miscRun) unknown(k string) bool {
+	return r.masked(k) && !(r.retKnown && r.retained[k])
+}
+
 func (r *miscRun) step(toks []string) (string, string) {
 	line := strings.Join(toks, " ")
+	switch toks[0] {
+	case "p.set", "p.del", "s.set", "s.del", "t.set", "t.del", "x.set", "start", "sub":
+		defer func() { r.quiet = false }()
+	case "sync", "unsub", "list", "get", "stream", "xstream":
+		defer func() { r.quiet = true }()
+	}
 	switch {
 	case toks[0] == "p.set" && len(toks) == 2:
 		o, ok := parseObj(toks[1])
@@ -87,6 +107,7 @@ func (r *miscRun) step(toks []string) (string, string) {
 		return "ok", line
 	case toks[0] == "p.del" && len(toks) == 2:
 		delete(r.primM, toks[1])
+		delete(r.retained, toks[1])
 		if r.der != nil {
 			r.prim.DeleteObject(toks[1])
 		}
@@ -101,19 +122,60 @@ func (r *miscRun) step(toks []string) (string, string) {
 	case toks[0] == "s.del" && len(toks) == 2:
 		r.sec.DeleteObject(toks[1])
 		return "ok", line
-	case toks[0] == "x.set" && len(toks) == 2:
-		if toks[1] == "nil" {
-			r.cfgVal = nil
-			r.cfg.Set(nil)
-			return "ok", line
-		}
+	case toks[0] == "t.set" && len(toks) == 2:
 		o, ok := parseObj(toks[1])
 		if !ok {
 			return "bad-op", line
 		}
-		r.cfgVal = &o
-		r.cfg.Set(&o)
+		r.third.UpdateObject(o)
 		return "ok", line
+	case toks[0] == "t.del" && len(toks) == 2:
+		r.third.DeleteObject(toks[1])
+		return "ok", line
+	case toks[0] == "x.set" && len(toks) == 2:
+		var nv *Obj
+		if toks[1] != "nil" {
+			o, ok := parseObj(toks[1])
+			if !ok {
+				return "bad-op", line
+			}
+			nv = &o
+		}
+		was := r.discarding()
+		r.cfgVal = nv
+		now := r.discarding()
+		switch {
+		case now && !was:
+			r.retKnown = r.quiet && r.der != nil
+			r.retained = map[string]bool{}
+			for k := range r.primM {
+				r.retained[k] = true
+			}
+		case !now:
+			r.retKnown, r.retained = false, nil
+		}
+		r.cfg.Set(nv)
+		return "ok", line
+	case toks[0] == "xsub" && len(toks) == 3:
+		s := &subscriber{}
+		r.xsubs[toks[1]] = s
+		col := r.cfg.AsCollection()
+		switch toks[2] {
+		case "single":
+			col.Register(func(e krt.Event[Obj]) { recObj(s)([]krt.Event[Obj]{e}) })
+		case "batch":
+			col.RegisterBatch(recObj(s), true)
+		default:
+			col.RegisterBatch(recObj(s), false)
+		}
+		return "ok", line
+	case toks[0] == "xstream" && len(toks) == 2:
+		synctest.Wait()
+		s := r.xsubs[toks[1]]
+		if s == nil {
+			return "xstream unknown-subscriber", line
+		}
+		return "xstream accept", strings.Join(append([]string{"xstream", toks[1]}, s.snapshot()...), " ")
 	case toks[0] == "start" && len(toks) == 1:
 		r.start()
 		return "ok", line
@@ -154,9 +216,9 @@ func (r *miscRun) step(toks []string) (string, string) {
 	synctest.Wait()
 	switch {
 	case toks[0] == "list" && len(toks) == 1:
-		return "list " + showEntries(r.der.List(), func(k string) bool { return !r.masked(k) }), line
+		return "list " + showEntries(r.der.List(), func(k string) bool { return !r.unknown(k) }), line
 	case toks[0] == "get" && len(toks) == 2:
-		if r.masked(toks[1]) {
+		if r.unknown(toks[1]) {
 			return "get masked", line
 		}
 		o := r.der.GetKey(toks[1])
@@ -201,13 +263,16 @@ func genMiscCase(r *wire.Rng, n int, w *wire.Out) {
 			o := pobj()
 			prim[o.ResourceName()] = true
 			w.Line("p.set", o.Token())
-		case x < 85:
+		case x < 75:
 			w.Line("s.set", genObj(r, snames).Token())
+		case x < 88:
+			w.Line("t.set", genObj(r, snames).Token())
 		default:
 			w.Line("x.set", cfgObj())
 		}
 	}
 	w.Line("start")
+	var xsubs []string
 	queries := func() {
 		w.Line("list")
 		for _, ns := range nss {
@@ -220,8 +285,25 @@ func genMiscCase(r *wire.Rng, n int, w *wire.Out) {
 		for _, s := range subs {
 			w.Line("stream", s)
 		}
+		for _, s := range xsubs {
+			w.Line("xstream", s)
+		}
 	}
 	for i, k := 0, 4+r.Intn(36); i < k; i++ {
+		if r.Chance(12, 100) { // the third collection, read through PartialFetch only
+			if r.Chance(70, 100) {
+				w.Line("t.set", genObj(r, snames).Token())
+			} else {
+				w.Line("t.del", wire.Pick(r, nss)+"/"+wire.Pick(r, snames))
+			}
+			continue
+		}
+		if len(xsubs) < 2 && r.Chance(4, 100) {
+			name := fmt.Sprintf("x%d", len(xsubs)+1)
+			xsubs = append(xsubs, name)
+			w.Line("xsub", name, wire.Pick(r, []string{"single", "batch", "nostate"}))
+			continue
+		}
 		switch x := r.Intn(100); {
 		case x < 22:
 			o := pobj()
@@ -234,6 +316,9 @@ func genMiscCase(r *wire.Rng, n int, w *wire.Out) {
 		case x < 63:
 			w.Line("s.del", wire.Pick(r, nss)+"/"+wire.Pick(r, snames))
 		case x < 78:
+			if r.Chance(70, 100) {
+				w.Line("sync") // mostly at a quiescent point: the results kept under DiscardResult are then known
+			}
 			w.Line("x.set", cfgObj())
 		case x < 84:
 			w.Line("sync")
